@@ -216,7 +216,10 @@ def step (_ : Unit) (op impl : String) : Unit × DrvOut :=
           if isPanic impl || (impl.splitOn " panic").length > 1 then "FAIL codec panicked"
           else if e.wf then (if impl == expect then "ok" else "FAIL encoded value does not decode to itself")
           else if e.overFrame && e.isReqErr && Gen.C32.reasonUnbounded && impl != expect then
-            "KNOWN frameLenOverflow REQUEST_ERROR payload exceeds the 16-bit length field; the frame is emitted with a truncated length and does not decode"
+            -- fixed in /repo (4b16838): the server bounds the reason it encodes.  If a REQUEST_ERROR is
+            -- again built from an unbounded string (regenerated fact), the wrapped frame length is a
+            -- violation of the round-trip property, not a known finding.
+            "FAIL frameLenOverflow: REQUEST_ERROR payload exceeds the 16-bit length field (the server builds the reason from an unbounded string); the frame is emitted with a truncated length and does not decode"
           else "ok"
         ((), { model, spec })
       | none => ((), { model := "bad-op" })
